@@ -1845,9 +1845,8 @@ pub fn model_apply(view: &mut MBucket, step: &Step, rw: bool) -> Obs {
     let root_level = path.is_empty();
     // Tx-level mutators check the transaction kind before anything else; bucket-level ones
     // are reached only after the path has been resolved with get_bucket.
-    if root_level && step.is_mutator() && !rw {
-        return Obs::Err(EK::ReadOnlyTx);
-    }
+    // the transaction itself has bucket-level calls only: anything else aimed at the root
+    // level is not an API call at all
     if root_level
         && !matches!(
             step,
@@ -1855,6 +1854,9 @@ pub fn model_apply(view: &mut MBucket, step: &Step, rw: bool) -> Obs {
         )
     {
         return Obs::Skipped;
+    }
+    if root_level && step.is_mutator() && !rw {
+        return Obs::Err(EK::ReadOnlyTx);
     }
     let b = match view.resolve_mut(path) {
         Ok(b) => b,
